@@ -525,8 +525,8 @@ def plan_c12(run, tmp):
         # the Go runtime aborts a process in which two goroutines use one map without synchronisation:
         # the harness only reads its shared maps, so such an abort is the library's doing
         if "fatal error: concurrent map" in p.stderr:
-            V.os.makedirs(V.os.path.join(V.VERIF, "replays"), exist_ok=True)
-            rp = V.os.path.join(V.VERIF, "replays", "C12-fatal-seed%d.txt" % run.seed)
+            V.os.makedirs(V.os.path.join(V.OUTROOT, "replays"), exist_ok=True)
+            rp = V.os.path.join(V.OUTROOT, "replays", "C12-fatal-seed%d.txt" % run.seed)
             with open(rp, "w") as f:
                 f.write("reproduce: build harness with -race; hx concload -seed %d -tier %s\n\n" % (run.seed, run.tier))
                 f.write(p.stderr[-20000:])
@@ -541,8 +541,8 @@ def plan_c12(run, tmp):
     run.add_validation("load", v, summary)
     V.judge(run, known, v["rejs"], shards, dict(hx=["concload"], seed=run.seed, tier=run.tier, module="TraceCodec", build="-race"))
     if races:
-        V.os.makedirs(V.os.path.join(V.VERIF, "replays"), exist_ok=True)
-        rp = V.os.path.join(V.VERIF, "replays", "C12-race-seed%d.txt" % run.seed)
+        V.os.makedirs(V.os.path.join(V.OUTROOT, "replays"), exist_ok=True)
+        rp = V.os.path.join(V.OUTROOT, "replays", "C12-race-seed%d.txt" % run.seed)
         with open(rp, "w") as f:
             f.write("reproduce: build harness with -race; hx concload -seed %d -tier %s\n\n" % (run.seed, run.tier))
             f.write(open(V.os.path.join(outl, races[0])).read()[:20000])
@@ -657,8 +657,8 @@ def conc_validate(run, tmp, shards):
     for r in rs:
         if r["rej"]:
             import shutil
-            V.os.makedirs(V.os.path.join(V.VERIF, "replays"), exist_ok=True)
-            rp = V.os.path.join(V.VERIF, "replays", "C17-history-%d-seed%d.ndjson" % (r["hdr"]["id"], run.seed))
+            V.os.makedirs(V.os.path.join(V.OUTROOT, "replays"), exist_ok=True)
+            rp = V.os.path.join(V.OUTROOT, "replays", "C17-history-%d-seed%d.ndjson" % (r["hdr"]["id"], run.seed))
             shutil.copy(r["path"], rp)
             run.violations.append((r["rej"][0], r["rej"][1], rp, 1))
     run.extra["concurrent_histories_undecided_within_time_limit"] = sum(1 for r in rs if r.get("undecided"))
